@@ -65,13 +65,13 @@ theorem src_vals_cons {fuel : Nat} {e : Expr} {rest : List Expr} {c : SCfg} {res
 theorem assignedValues_semF {ctx : Ctx} {T : List FEntry} {B : Nat} (hT : TableOK T) (hctx : CtxOK ctx T B) (count : Nat) (hcnt : count > 1) :
     ∀ (vals : List Expr) (i : Nat) (s : St) (ts : List String) (s' : St), fragEs (tnames T) vals = true → ctxOf s = ctx →
       assignedValues conv count vals vals.length i s = .ok (ts, s') →
-      ∃ new n, s' = adv s new n ∧ ts = tmpTextsF ctx i vals.length ∧
+      ∃ new n, s' = adv s new n ∧ ts = tmpTextsF ctx i vals.length ∧ LinesOK ctx 0 (tnames T) new ∧
         ∀ fuel c res, evalVals fuel vals c = some res → ∀ m, Inv ctx T c m → RunsV ctx T B new i m res
   | [], i, s, ts, s', _, _, h => by
     simp only [List.length_nil] at h
     unfold assignedValues at h
     obtain ⟨ev, es⟩ := pure_ok h
-    refine ⟨[], 0, es, ev, ?_⟩
+    refine ⟨[], 0, es, ev, LinesOK.nil _ _ _, ?_⟩
     intro fuel c res hs m hi
     cases fuel with
     | zero => simp [evalVals] at hs
@@ -97,17 +97,20 @@ theorem assignedValues_semF {ctx : Ctx} {T : List FEntry} {B : Nat} (hT : TableO
     injection hv' with hv'
     injection hv' with ev2 es2
     have hc2 : ctxOf s2 = ctx := by rw [← es2]; exact hc
-    obtain ⟨new3, n3, e3, ets, sem3⟩ := assignedValues_semF hT hctx count hcnt rest (i + 1) s2 vs' s3 hf.2 hc2 hvs
-    refine ⟨new3 ++ (Line.assign (ctx.tn i) (firstValue r) :: new1), n1 + n3, ?_, ?_, ?_⟩
+    obtain ⟨new3, n3, e3, ets, hl3, sem3⟩ := assignedValues_semF hT hctx count hcnt rest (i + 1) s2 vs' s3 hf.2 hc2 hvs
+    refine ⟨new3 ++ (Line.assign (ctx.tn i) (firstValue r) :: new1), n1 + n3, ?_, ?_, ?_, ?_⟩
     · rw [es, e3, ← es2]; simp [adv, Nat.add_assoc]; rfl
     · rw [ev, ets, ← ev2]; simp [tmpTextsF, Ctx.tn]; rfl
+    · refine hl3.append (LinesOK.cons ⟨fun y hy => ?_, fun nm ar e' => by cases e'⟩ sim1.lines)
+      simp only [lineTargets, List.mem_singleton] at hy
+      exact Or.inr (Or.inl ⟨i, hy⟩)
     · intro fuel c res hs m hi
       have shape : (new3 ++ (Line.assign (ctx.tn i) (firstValue r) :: new1)).reverse.map Cmd.simple =
           new1.reverse.map Cmd.simple ++ (Cmd.simple (.assign (ctx.tn i) (firstValue r)) :: new3.reverse.map Cmd.simple) := by simp
       rcases src_vals_cons hs with ⟨f, k, c1, he, rfl⟩ | ⟨f, o, c1, v0, he, hv0, hrest⟩
-      · obtain ⟨m1, ex, ho⟩ := sim1' f c _ (single_exit he) m hi
+      · obtain ⟨m1, ex, ho⟩ := sim1'.run f c _ (single_exit he) m hi
         exact ⟨m1, by rw [shape]; exact execCmds_stop_append _ ex (by simp), ho⟩
-      · obtain ⟨m1, ex1, hi1, hc1, hk1, hh1⟩ := runs_ok_then (sim1' f c _ (single_ok he) m hi)
+      · obtain ⟨m1, ex1, hi1, hc1, hk1, hh1⟩ := runs_ok_then (sim1'.run f c _ (single_ok he) m hi)
         have hst := step2_assign m1 (ctx.tn i) (hh1.1.expand hi1.agree hv0)
         have hi2 : Inv ctx T c1 { m1 with ρ := m1.ρ.set (ctx.tn i) v0.render } := hi1.set_tn i _
         rcases hrest with ⟨f', k, c2, hr, rfl⟩ | ⟨f', vs, c2, hr, rfl⟩
@@ -200,13 +203,15 @@ theorem assignN_semF {ctx : Ctx} {T : List FEntry} {B : Nat} (hT : TableOK T) (h
   unfold assignValues at h
   obtain ⟨values, s1, h1, h2⟩ := bind_ok h
   rw [hlen] at h1
-  obtain ⟨new1, n1, e1, ets, sem1⟩ := assignedValues_semF hT hctx vals.length (by omega) vals 0 s values s1 hf hc h1
+  obtain ⟨new1, n1, e1, ets, hl1, sem1⟩ := assignedValues_semF hT hctx vals.length (by omega) vals 0 s values s1 hf hc h1
   subst e1
   rw [ets, ← hlen, storeValues_run] at h2
   injection h2 with h2
   injection h2 with _ e2
-  refine ⟨new1.reverse.map Cmd.simple ++ (storeLines ctx vars (tmpTextsF ctx 0 vars.length)).map Cmd.simple, n1, 0, ?_, ?_⟩
+  refine ⟨new1.reverse.map Cmd.simple ++ (storeLines ctx vars (tmpTextsF ctx 0 vars.length)).map Cmd.simple, n1, 0, ?_, ?_, ?_⟩
   · rw [← e2, flats_append, flats_simples, flats_simples, ctxOf_adv, hc]; simp [adv, adv2]
+  · rw [flats_append, flats_simples, flats_simples]
+    exact ((hl1.reverse).mono (Nat.zero_le _)).append (storeLines_ok ctx _ _ vars _ hg)
   · intro fuel c o c' hs m hi
     rcases hsrc fuel c o c' hs with ⟨f, k, he, rfl⟩ | ⟨f, vs, c1, he, rfl, rfl⟩
     · obtain ⟨m1, ex, ho⟩ := sem1 f c _ he m hi
